@@ -1,13 +1,12 @@
 /-
 The generated tables the driver interprets, gathered in one structure so that the same handlers can
-run over the tables generated on this run (`ggqldrv`) or over the tables pinned at the commit the
-model was written against (`ggqldrv_pinned`, used only to search for a failing input when the
-generated ones no longer elaborate).
+run over the tables generated on this run (`ggqldrv`) or over the pinned copy of them
+(`Ggql/Pinned/*.lean`, written by `bin/pin_tables` from /repo's last committed tree; `ggqldrv_pinned`
+is used only to search for a failing input when the generated ones no longer elaborate).
 -/
 import Ggql.Model.Skip
 import Ggql.Model.LockTable
 import Ggql.Model.Coerce
-import Ggql.Driver.PinnedCoerce
 import Ggql.Model.ValueText
 import Ggql.Model.IntroArm
 namespace Ggql.Driver
@@ -40,132 +39,6 @@ structure Tables where
   opFallbackAnyName : Bool
   fieldPosAfterLookahead : Bool
   leafErrNulls : Bool
-
-/-- snapshot of `Gen/Tables.lean` at the pinned commit -/
-def pinnedValueTbl : ValueText.Tbl :=
-  { charMap := (".........ww..w..................wp......pp..w.p.ttttttttttp..p..pttttttttttttttttttttttttttp.p.t.ttttttttttttttttttttttttttppp..".toList.map Char.toNat) ++ List.replicate 128 46,
-    numMap := ("...........................................n.nn.nnnnnnnnnn...........n...............................n..........................".toList.map Char.toNat) ++ List.replicate 128 46,
-    spaceClass := 119, tokenClass := 116, numClass := 110,
-    escapes := [(8, [92, 98]), (12, [92, 102]), (10, [92, 110]), (13, [92, 114]), (9, [92, 116]), (92, [92, 92]), (34, [92, 34])],
-    unescapes := [(34, 34), (92, 92), (47, 47), (98, 8), (102, 12), (110, 10), (114, 13), (116, 9)],
-    terminators := [0, 32, 9, 10, 13, 12, 44, 125, 93, 123, 91, 41] }
-
-/-- snapshot of `Gen/Intro.lean` at the pinned commit -/
-def pinnedIntroTable : List (Intro.GoT × String × Intro.Arm) :=
-  [(.arg, "defaultValue", .default),
-   (.arg, "description", .desc),
-   (.arg, "name", .name),
-   (.arg, "type", .type),
-   (.directive, "args", .args),
-   (.directive, "description", .desc),
-   (.directive, "locations", .locations),
-   (.directive, "name", .name),
-   (.enum, "description", .desc),
-   (.enum, "enumValues", .enumValuesByArg),
-   (.enum, "fields", .nil),
-   (.enum, "inputFields", .nil),
-   (.enum, "interfaces", .nil),
-   (.enum, "kind", .kindLocate),
-   (.enum, "name", .name),
-   (.enum, "ofType", .nil),
-   (.enum, "possibleTypes", .nil),
-   (.enumValue, "deprecationReason", .deprecationReason),
-   (.enumValue, "description", .desc),
-   (.enumValue, "isDeprecated", .isDeprecated),
-   (.enumValue, "name", .name),
-   (.fieldDef, "args", .args),
-   (.fieldDef, "deprecationReason", .deprecationReason),
-   (.fieldDef, "description", .desc),
-   (.fieldDef, "isDeprecated", .isDeprecated),
-   (.fieldDef, "name", .name),
-   (.fieldDef, "type", .type),
-   (.iface, "description", .desc),
-   (.iface, "enumValues", .nil),
-   (.iface, "fields", .fieldsAll),
-   (.iface, "inputFields", .nil),
-   (.iface, "interfaces", .nil),
-   (.iface, "kind", .kindLocate),
-   (.iface, "name", .name),
-   (.iface, "ofType", .nil),
-   (.iface, "possibleTypes", .possibleImpl),
-   (.input, "description", .desc),
-   (.input, "enumValues", .nil),
-   (.input, "fields", .nil),
-   (.input, "inputFields", .fieldsAll),
-   (.input, "interfaces", .nil),
-   (.input, "kind", .kindLocate),
-   (.input, "name", .name),
-   (.input, "ofType", .nil),
-   (.input, "possibleTypes", .nil),
-   (.inputField, "defaultValue", .default),
-   (.inputField, "description", .desc),
-   (.inputField, "name", .name),
-   (.inputField, "type", .type),
-   (.list, "description", (.const "LIST")),
-   (.list, "enumValues", .nil),
-   (.list, "fields", .nil),
-   (.list, "inputFields", .nil),
-   (.list, "interfaces", .nil),
-   (.list, "kind", (.const "LIST")),
-   (.list, "name", .wrapperName),
-   (.list, "ofType", .base),
-   (.list, "possibleTypes", .nil),
-   (.nonNull, "description", (.const "NON_NULL")),
-   (.nonNull, "enumValues", .nil),
-   (.nonNull, "fields", .nil),
-   (.nonNull, "inputFields", .nil),
-   (.nonNull, "interfaces", .nil),
-   (.nonNull, "kind", (.const "NON_NULL")),
-   (.nonNull, "name", .wrapperName),
-   (.nonNull, "ofType", .base),
-   (.nonNull, "possibleTypes", .nil),
-   (.object, "description", .desc),
-   (.object, "enumValues", .nil),
-   (.object, "fields", .fieldsByArg),
-   (.object, "inputFields", .nil),
-   (.object, "interfaces", .interfacesPlain),
-   (.object, "kind", .kindLocate),
-   (.object, "name", .nameOrSchema),
-   (.object, "ofType", .nil),
-   (.object, "possibleTypes", .nil),
-   (.root, "directives", .directives),
-   (.root, "mutationType", (.rootOp "mutation")),
-   (.root, "queryType", (.rootOp "query")),
-   (.root, "subscriptionType", (.rootOp "subscription")),
-   (.root, "types", .types),
-   (.scalar, "description", .desc),
-   (.scalar, "enumValues", .nil),
-   (.scalar, "fields", .nil),
-   (.scalar, "inputFields", .nil),
-   (.scalar, "interfaces", .nil),
-   (.scalar, "kind", .kindLocate),
-   (.scalar, "name", .name),
-   (.scalar, "ofType", .nil),
-   (.scalar, "possibleTypes", .nil),
-   (.union, "description", .desc),
-   (.union, "enumValues", .nil),
-   (.union, "fields", .nil),
-   (.union, "inputFields", .nil),
-   (.union, "interfaces", .nil),
-   (.union, "kind", .kindLocate),
-   (.union, "name", .name),
-   (.union, "ofType", .nil),
-   (.union, "possibleTypes", .members)]
-
-def pinnedTables : Tables :=
-  { skip := Skip.tableAssign, valueTbl := pinnedValueTbl,
-    -- pinned: the one unguarded site of the pinned tree (D26)
-    locks := [⟨"regField", .objMeta, false, [.fdMu], true⟩, ⟨"assureType", .objMeta, true, [.objMu], true⟩],
-    outInt := Pinned.coerceOutInt, inInt := Pinned.coerceInInt,
-    outInt64 := Pinned.coerceOutInt64, inInt64 := Pinned.coerceInInt64,
-    outFloat := Pinned.coerceOutFloat, inFloat := Pinned.coerceInFloat,
-    outFloat64 := Pinned.coerceOutFloat64, inFloat64 := Pinned.coerceInFloat64,
-    outString := Pinned.coerceOutString, inString := Pinned.coerceInString,
-    outId := Pinned.coerceOutId, inId := Pinned.coerceInId,
-    outBoolean := Pinned.coerceOutBoolean, inBoolean := Pinned.coerceInBoolean,
-    outTime := Pinned.coerceOutTime, inTime := Pinned.coerceInTime,
-    introTable := pinnedIntroTable,
-    locateTable := [(.enum, "ENUM"), (.iface, "INTERFACE"), (.input, "INPUT_OBJECT"), (.object, "OBJECT"), (.scalar, "SCALAR"), (.union, "UNION")],
-    metaLiteral := "Query", sdlEmptyTokenSpins := true, exeVarTypeOptional := true, opFallbackAnyName := true, fieldPosAfterLookahead := true, leafErrNulls := false }
+  fastSliceCopies : Bool
 
 end Ggql.Driver
